@@ -43,5 +43,9 @@ Definition oracle_case (k : case) : bool :=
       | Lts c => lts_status_ok c
       | Checked _ _ ok => ok
       | UnaryStatus _ code _ _ oc ms ds _ _ => (oc =? (if code =? 0 then 13 else code)) && ms && ds
+      | StreamStatus _ kind sends code cls _ failed oc om ms ds _ _ =>
+          (* never a success: the receive that ends the stream returns an error that is not io.EOF;
+             the handler's own code, message and details; no message lost before the status *)
+          failed && ((cls =? 6) || (negb (oc =? 0) && (oc =? code) && ms && ds)) && (om <=? sends) && ((kind =? 3) || (om =? sends))
       end
   end.
